@@ -186,6 +186,9 @@ class RankEval:
         if isinstance(s, ast.Subscript) and not isinstance(s.slice, ast.Slice):
             vec = self.vector(s.value)
             idx = self.scalar(s.slice)
+            c_ = const_value(s.slice)
+            if isinstance(c_, int) and not isinstance(c_, bool) and c_ < 0:
+                idx = pN + sym.Poly.const(c_)      # a negative literal counts from the end
             self.index_uses.append((vec, idx, s))
             return vec.elem(idx)
         return self.scalar(s)
@@ -268,6 +271,8 @@ def _classify_cond(rk, ex, test, f):
                 return 'B'
             if e == 'min' and k is ast.LtE:
                 return 'Bp'
+            if k in (ast.Eq, ast.NotEq):
+                return ('E' if k is ast.Eq else 'NE') + e
             return 'other'
         # emptiness
         if (rk.is_sample_len(a) and const_value(b) == 0) or (rk.is_sample_len(b) and const_value(a) == 0):
@@ -295,8 +300,13 @@ def analyse(ck, fname, target, what):
         is_empty_path = False
         unknown = []
         rawend = []
+        flags = set()
         for test, pol in conds:
             k = _classify_cond(rk, ex, test, f)
+            if k == 'A' and not pol:
+                flags.add('lemax')
+            if k == 'B' and not pol:
+                flags.add('gemin')
             if k == 'empty':
                 if pol:
                     is_empty_path = True
@@ -321,6 +331,19 @@ def analyse(ck, fname, target, what):
                     subst[L] = sym.Poly()
                 else:
                     loL, loR = 1, 1
+            elif k in ('Emax', 'NEmax'):
+                # v equals the largest sample value: R = n and at least that element is not below v
+                if pol == (k == 'Emax'):
+                    subst[R] = pN
+                    hiL = 'n-1'
+                else:
+                    flags.add('nemax')
+            elif k in ('Emin', 'NEmin'):
+                if pol == (k == 'Emin'):
+                    subst[L] = sym.Poly()
+                    loR = 1
+                else:
+                    flags.add('nemin')
             elif k == 'neutral':
                 pass
             elif k == 'rawend':
@@ -334,6 +357,10 @@ def analyse(ck, fname, target, what):
                     is_empty_path = True
             else:
                 unknown.append(u(test))
+        if {'nemax', 'lemax'} <= flags:
+            hiL = hiR = 'n-1'          # v below the maximum
+        if {'nemin', 'gemin'} <= flags:
+            loL = loR = 1              # v above the minimum
         o = ck.ob('C09-D2.ret.' + fname, f, 'return %s  [path: %s]' % (
             u(ret.value) if ret.value else 'None',
             ' and '.join(('' if pl else 'not ') + '(' + u(t) + ')' for t, pl in conds) or 'entry'), ret)
@@ -516,6 +543,30 @@ def rule_pair(ck):
     main = [r for r in rets if not (isinstance(r.value, ast.Tuple) and all(const_value(x) is None for x in r.value.elts))]
     if len(main) != 1:
         raise Inconclusive('get_quantiles has %d returns' % len(rets))
+    # ... and only for an empty sample: the observed value may be 0 (an empty catalog, a zero statistic), the sample may hold zeros
+    from .common import guard_dnf
+    smp = f.positional_params[0]
+    for r in rets:
+        if r in main:
+            continue
+        oe = ck.ob('C09-D3.nopair', f, 'no scores only for an empty sample', r)
+        try:
+            d = guard_dnf(r, f.node)
+        except Inconclusive:
+            oe.unknown('guard of the early return too large')
+            continue
+
+        def emptiness(a, pol):
+            if isinstance(a, ast.Compare) and len(a.ops) == 1 and const_value(a.comparators[0]) == 0 and isinstance(a.ops[0], (ast.Eq, ast.NotEq)):
+                t = u(a.left)
+                return t in ('len(%s)' % smp, '%s.size' % smp, 'numpy.size(%s)' % smp, '%s.shape[0]' % smp) and (isinstance(a.ops[0], ast.Eq) == pol)
+            if isinstance(a, ast.Call) and u(a) == 'len(%s)' % smp:
+                return not pol
+            return False
+        bad = [c for c in d if not any(emptiness(a, pol) for a, pol in c)]
+        (oe.fail('get_quantiles gives (None, None) for a non-empty sample when `%s`: a value that is a legitimate observation (0, 0.0) '
+                 'is taken for a missing one' % ' and '.join(('' if pol else 'not ') + u(a) for a, pol in bad[0])[:100]) if bad else
+         oe.ok('only when the sample is empty'))
     rets = main
     e = ex.expand(rets[0].value)
     ps = f.positional_params
